@@ -102,6 +102,12 @@ def model_checks(ctx):
            need_actions=("ChainStep", "Start", "GInit", "GrdpStep", "GrdpEnd", "MpNext", "FixedStep", "FixedEnd"),
            timeout=1800)
     ctx.mc("Fixed", "MC_Fixed_buggy", expect="WellFormed")
+    # the implementation-shaped machine refines the abstraction whose step bound is proved for EVERY n (TLAPS, RdpProof_proofs.tla)
+    ctx.mc("RdpRefines", "MC_RdpRefines", need_actions=("RdpAccept", "RdpSplit", "Finish"))
+    ctx.mc("RdpRefines", "MC_RdpRefines_neg", expect="AbsInv")        # an end-point split is not a step of the proved abstraction
+    if not ctx.quick:
+        from harness import proofs
+        proofs.recheck(ctx, ["RdpProof_proofs"])
 
 
 def run(ctx):
